@@ -257,8 +257,8 @@ def run_timeline(ck):
     exe = vlib.build_harness("c13_timeline", ["c13_timeline.c"])
     quick = ck.tier == "quick"
     nshards = vlib.NCPU
-    mods = pick_modules(ck, 200 if quick else 100000)
-    per = max(1, (len(mods) + nshards - 1) // nshards) * (1 if quick else 4)
+    mods = pick_modules(ck, 100000)
+    per = max(1, (len(mods) + nshards - 1) // nshards) * (1 if quick else 6)
     maxframes = 400 if quick else 1500
     nsite = 2 if quick else 3
     shards = []
